@@ -25,7 +25,7 @@ SPEC_NAMES = {"forall", "exists", "implies", "old", "has", "get", "result", "iff
               "card", "is_some", "the", "select", "store", "subset", "inrange", "cls_is", "same_obj", "let",
               "dom_eq", "unchanged", "nth", "Seq", "contains", "distinct", "sub", "count_in", "spec_call", "pre",
               "image_has", "inj", "keys_of", "ghost", "concat", "empty_seq", "isNone", "notNone", "eq", "view_of",
-              "kind_of", "elems", "as_list", "as_cls", "any_as", "allocated"}
+              "kind_of", "elems", "as_list", "as_cls", "any_as", "allocated", "assume"}
 
 
 class Evaluator(Interp):
@@ -145,9 +145,11 @@ class Evaluator(Interp):
 
     def apply_narrowing(self, node, v, fr):
         nr = getattr(fr, "narrowed", None)
+        if nr and isinstance(v, SV) and isinstance(v.ty, TOpt) and nr.get(ast.dump(node)) == "<notnone>":
+            return self.assume_wf(SV(v.ty.inner, acc(v.ty.val(v.term))))
         if nr and isinstance(v, SV) and isinstance(v.ty, TObj) and not v.ty.exact:
             q = nr.get(ast.dump(node))
-            if q is not None and self.w.is_subclass(q, v.ty.cls):
+            if q is not None and q != "<notnone>" and self.w.is_subclass(q, v.ty.cls):
                 return SV(TObj(q, exact=len(self.w.subclasses(q)) == 1), v.term)
         return v
 
@@ -256,6 +258,9 @@ class Evaluator(Interp):
             if owner is not None:
                 return self.read_field(obj, attr, fr)
         dcls = self.dyn_class(obj, attr, fr)
+        if isinstance(t, TObj) and dcls != cls and self.w.is_subclass(dcls, cls):
+            # the fork fixed the receiver's class (or class group): use it as the static type inside the method
+            obj = SV(TObj(dcls, exact=len(self.w.subclasses(dcls)) == 1), obj.term)
         m = self.w.find_method(dcls, attr)
         if m is not None:
             if m.kind == "property" or m.kind == "cached_property":
@@ -1056,7 +1061,7 @@ class Evaluator(Interp):
             self.exec_stmt(st, fr)
 
     def exec_stmt(self, st, fr: Frame):
-        if getattr(fr, "narrowed", None) and not isinstance(st, (ast.Return, ast.Assert, ast.If)):
+        if getattr(fr, "narrowed", None) and not isinstance(st, (ast.Return, ast.Assert, ast.If)) and _may_mutate(st):
             fr.narrowed = {}  # expression narrowings do not survive statements that may change the heap
         m = getattr(self, "s_" + type(st).__name__, None)
         if m is None:
@@ -1251,12 +1256,18 @@ class Evaluator(Interp):
 
     def narrow_none(self, test, fr, truth: bool):
         """`x is None` / `x is not None` with known outcome: give the optional local its payload type."""
-        if not (isinstance(test, ast.Compare) and len(test.ops) == 1 and isinstance(test.left, ast.Name)
+        if not (isinstance(test, ast.Compare) and len(test.ops) == 1 and isinstance(test.left, (ast.Name, ast.Attribute, ast.Subscript))
                 and isinstance(test.comparators[0], ast.Constant) and test.comparators[0].value is None):
             return False
         is_none = isinstance(test.ops[0], ast.Is)
         if not is_none and not isinstance(test.ops[0], ast.IsNot):
             return False
+        if not isinstance(test.left, ast.Name):
+            if truth != is_none:   # known not None
+                if not hasattr(fr, "narrowed"):
+                    fr.narrowed = {}
+                fr.narrowed[ast.dump(test.left)] = "<notnone>"
+            return True
         nm = test.left.id
         v = fr.env.get(nm)
         known_none = (truth == is_none)
@@ -1417,6 +1428,17 @@ class Evaluator(Interp):
 
     def s_With(self, st, fr):
         raise Unsupported("with statement")
+
+
+def _may_mutate(st) -> bool:
+    for n in ast.walk(st):
+        if isinstance(n, (ast.Call, ast.Delete, ast.Yield, ast.YieldFrom)):
+            return True
+        if isinstance(n, (ast.Assign, ast.AugAssign, ast.AnnAssign)):
+            tg = n.targets if isinstance(n, ast.Assign) else [n.target]
+            if any(not isinstance(t, ast.Name) for t in tg):
+                return True
+    return False
 
 
 class _Star:
